@@ -32,7 +32,7 @@ fn c16_map_get_index_in_range() {
         Ok(None) => assert!(index == -1),
         Err(e) => assert!(e == index && index != -1),
     }
-    kani::cover!(index >= 0 && start + index as usize == end - 1 && end > 0, "last valid index");
+    kani::cover!(index >= 0 && end > 0 && start + index as usize == end - 1, "last valid index");
     kani::cover!(index >= 0 && start + index as usize == end, "one past the end");
 }
 
